@@ -783,7 +783,8 @@ class NullRun:
 
     def __init__(self, tier="quick"):
         self.tier = tier
-        self.counters = {}
+        import collections
+        self.counters = collections.Counter()
         self.extra = {}
         self.failed = []  # keys / messages of the checks that failed (for the re-using property to look at)
 
